@@ -72,6 +72,8 @@ def group_argv(o, roots, fmt="json", extra=()):
         a += [b"--cache"]
     if o.get("transform"):
         a += [b"--transform", TRANSFORMS[o["transform"]][0].encode()]
+    if o.get("skip_content_hash"):
+        a += [b"--skip-content-hash"]
     if o.get("match_links"):
         a += [b"-H"]
     if o.get("symbolic_links"):
